@@ -148,7 +148,7 @@ def permuted_runs(res, quick):
 def run(res):
   quick = res.tier == "quick"
   res.rule = "each traced real launch (>= 2 tasks, no allocating atomic) of a machine-translated kernel during mjw.step is re-run inside Coq in ascending, reverse and one random task order and compared with the real result (float tolerance 5e-4); distinct = (kernel, order) pairs that agree"
-  ok, trs, failing = propkit.prove(res, "Props/C11.v", gen_names=["Skel_alloc", "Skel_access", "math"])
+  ok, trs, failing = propkit.prove(res, "Props/C11.v", gen_names=["Skel_alloc", "Skel_access", "math", "T_sleep"])
   fails = permuted_runs(res, quick)
   asc_bad = [f for f in fails if f["order"] == "asc"]
   ord_bad = [f for f in fails if f["order"] != "asc" and not any(a["kernel"] == f["kernel"] for a in asc_bad)]
